@@ -28,7 +28,7 @@ def run(ctx):
                         'user Message::box_message/from_boxed are opaque wrappers of the same message token']
     # name, senders, msgs, drainers, stoppers, rounds, unroll, spurious
     if quick:
-        insts = [('s2x1_stop_r2', 2, 1, 0, 1, 2, 2, False), ('s1x2_stop_r2', 1, 2, 0, 1, 2, 2, False), ('s2x1_nostop_r2', 2, 1, 0, 0, 2, 2, False), ('s1x1_d1_r2', 1, 1, 1, 0, 2, 2, False)]
+        insts = [('s2x1_stop_r2', 2, 1, 0, 1, 2, 2, False), ('s1x2_stop_r2', 1, 2, 0, 1, 2, 2, False), ('s2x1_nostop_r2', 2, 1, 0, 0, 2, 2, False), ('s1x1_d1_r2', 1, 1, 1, 0, 2, 2, False), ('s2x1_d1_r2', 2, 1, 1, 0, 2, 2, False)]
     else:
         insts = [('s2x1_stop_r2', 2, 1, 0, 1, 2, 2, False), ('s1x2_stop_r2', 1, 2, 0, 1, 2, 2, False), ('s2x1_nostop_r2', 2, 1, 0, 0, 2, 2, False),
                  ('s2x2_nostop_r2', 2, 2, 0, 0, 2, 2, False), ('s2x1_d1_stop_r2', 2, 1, 1, 1, 2, 2, False), ('s3x1_stop_r2', 3, 1, 0, 1, 2, 2, False),
